@@ -221,7 +221,7 @@ def show_ctx(guards: Sequence[Term], iters: Sequence[Term]) -> str:
 
 
 # ----------------------------------------------------------------------------- refactoring-robust views
-def unalias(t: Any, s: Summary, fi: Optional[FuncInfo] = None) -> Any:
+def unalias(t: Any, s: Summary, fi: Optional[FuncInfo] = None, at: Optional[Event] = None) -> Any:
     """Replace opaque locals (kept as variables because they are mutated later) by the value
     they were bound to, when there is exactly one binding: `d = x.setdefault(k, {}); d[j] = v`
     is seen as `x.setdefault(k, {})[j] = v`."""
@@ -233,8 +233,17 @@ def unalias(t: Any, s: Summary, fi: Optional[FuncInfo] = None) -> Any:
     def walk(x: Any, depth: int) -> Any:
         if not isinstance(x, tuple):
             return x
-        if x and x[0] == "var" and len(x) == 2 and x[1] in binds and x[1] not in params and len(binds[x[1]]) == 1 and depth < 6:
-            v = binds[x[1]][0].term[2]
+        reaching = None
+        if x and x[0] == "var" and len(x) == 2 and x[1] in binds and x[1] not in params and len(binds[x[1]]) > 1 and at is not None and depth < 6:
+            # several bindings (the name is re-used in another loop): the one that reaches `at` -- the latest binding before it,
+            # provided it is in the same or an enclosing loop and under conditions that hold at `at` as well (it dominates)
+            before = [b for b in binds[x[1]] if b.idx < at.idx]
+            if before:
+                b = before[-1]
+                if tuple(at.iters[:len(b.iters)]) == tuple(b.iters) and tuple(at.guards[:len(b.guards)]) == tuple(b.guards) and tuple(at.tries[:len(b.tries)]) == tuple(b.tries):
+                    reaching = b
+        if x and x[0] == "var" and len(x) == 2 and x[1] in binds and x[1] not in params and (len(binds[x[1]]) == 1 or reaching is not None) and depth < 6:
+            v = (reaching or binds[x[1]][0]).term[2]
             # only aliases of something that lives elsewhere (an access path or the result of a
             # method call on one), never a container that is created here
             takers = ("pop", "popitem", "popleft", "heappop", "get_nowait")
